@@ -213,7 +213,7 @@ func init() {
 		"strings.NewReplacer":            mNewReplacer,
 		"(*strings.Replacer).Replace":    mReplacerReplace,
 		"(*sync.Pool).Get":               mPoolGet,
-		"(*sync.Pool).Put":               func(ex *Exec, a []Val) Val { return nil },
+		"(*sync.Pool).Put":               mPoolPut,
 		"(*regexp.Regexp).MatchString":   mRegexpMatchString,
 		"unicode/utf8.RuneCountInString": mRuneCount,
 		"unicode/utf8.DecodeRuneInString": func(ex *Exec, a []Val) Val {
@@ -1843,12 +1843,35 @@ func mReplacerReplace(ex *Exec, args []Val) Val {
 	return Str{B: out}
 }
 
-// sync.Pool: never keeps anything (a legal behaviour of the real pool): Get
-// calls New, or returns nil without one.
+// sync.Pool: keeps what it is given and hands the most recently returned
+// object out again (what the real pool does on one goroutine between
+// collections; also legal: dropping everything) - the behaviour under which
+// state left in a pooled object, or an object still referenced by its last
+// user, shows. Without a kept object Get calls New, or returns nil.
+func mPoolPut(ex *Exec, args []Val) Val {
+	p := args[0].(Ptr)
+	if p.P == nil {
+		ex.gopanic("nil-deref", "Put on a nil *sync.Pool")
+	}
+	if args[1] == nil {
+		return nil
+	}
+	if ex.pools == nil {
+		ex.pools = map[*Val][]Val{}
+	}
+	ex.pools[p.P] = append(ex.pools[p.P], args[1])
+	return nil
+}
+
 func mPoolGet(ex *Exec, args []Val) Val {
 	p := args[0].(Ptr)
 	if p.P == nil {
 		ex.gopanic("nil-deref", "Get on a nil *sync.Pool")
+	}
+	if kept := ex.pools[p.P]; len(kept) > 0 {
+		v := kept[len(kept)-1]
+		ex.pools[p.P] = kept[:len(kept)-1]
+		return v
 	}
 	st, ok := (*p.P).(Struct)
 	if !ok {
